@@ -410,6 +410,31 @@ func c17GenOps(r *vlib.Rand, g *c17GenCfg) []c17Op {
 				x, y = c17Coord(r, g.w), c17Coord(r, g.h)
 			}
 			ops = append(ops, c17Op{kind: c17OpCursor, x: x, y: y})
+		case g.states && active && r.Chance(1, 14):
+			// an inactive period during which nothing but line feeds (and bytes that store no
+			// cell) arrives: the viewport moves although no character is written
+			if r.Bool() {
+				ops = append(ops, c17Op{kind: c17OpCursor, x: c17Coord(r, g.w), y: uint32(g.h)})
+			}
+			ops = append(ops, c17Op{kind: c17OpState, state: StateInactive})
+			var burst []byte
+			for k := r.Range(1, g.h+3); k > 0; k-- {
+				burst = append(burst, '\n')
+				if r.Chance(1, 4) {
+					burst = append(burst, '\r')
+				}
+				if r.Chance(1, 6) {
+					burst = append(burst, '\r', '\b')
+				}
+			}
+			if len(burst) > g.maxBytes-total {
+				burst = burst[:g.maxBytes-total]
+			}
+			total += len(burst)
+			if len(burst) > 0 {
+				ops = append(ops, c17Op{kind: c17OpWrite, data: burst})
+			}
+			ops = append(ops, c17Op{kind: c17OpState, state: StateActive})
 		case g.states && r.Chance(1, g.stateBias):
 			st := StateActive
 			if active && r.Chance(3, 4) || !active && r.Chance(1, 6) {
